@@ -30,6 +30,10 @@ func VerifForest(content []byte) (docs []VerifDoc, lines []string, yerr *ParseEr
 		}
 		if decodeErr != nil {
 			pe := tryDecodingYamlError(decodeErr)
+			if cr.lineno > 0 && pe.Line > cr.lineno {
+				// Parse keeps yaml errors found at the end of the input on the last line (fix 07824b1); own copy of that step
+				pe.Line = cr.lineno
+			}
 			yerr = &pe
 			break
 		}
